@@ -300,7 +300,10 @@ def loopspec_args(fam, spec):
     for function, regex, bound in spec:
         ids = loop_ids(fam, function, regex)
         if not ids:
-            raise RuntimeError('loopspec: no loop in %s matches /%s/' % (function, regex))
+            # the loop head no longer reads as expected (source changed): fall back to the family's global
+            # --unwind for it - slower, never less sound (unwinding assertions stay on)
+            fam.notes_runtime = getattr(fam, 'notes_runtime', set()) | {'loopspec: no loop in %s matches /%s/; global unwind bound used' % (function, regex)}
+            continue
         for lid in ids:
             args += ['--unwindset', '%s:%d' % (lid, bound)]
     return args
@@ -859,4 +862,13 @@ def write_evidence(pid, tier, seed, mod, fams, obls, wall, nviol):
 
 
 if __name__ == '__main__':
-    sys.exit(main())
+    try:
+        rc_ = main()
+    except SystemExit:
+        raise
+    except BaseException as exc:                # never let a crash of the machinery look like a verdict (exit 1)
+        import traceback
+        traceback.print_exc()
+        print('MACHINERY-FAULT driver error: %r' % (exc,))
+        rc_ = 2
+    sys.exit(rc_)
